@@ -144,11 +144,20 @@ impl RFsmExpressionDatamodel {
                         // Pretty print the error
                         let msg = format!("Script Error:  {} => {} ", source, e);
                         error!("{}", msg);
+                        if handle_error {
+                            self.internal_error_execution();
+                        }
                         Err(msg)
                     }
                 }
             }
-            Err(err) => Err(err),
+            Err(err) => {
+                // The source can't be parsed: this is an evaluation error as well.
+                if handle_error {
+                    self.internal_error_execution();
+                }
+                Err(err)
+            }
         }
     }
 
